@@ -8,7 +8,7 @@ CONSTANTS
   StartNrs = {0, 1}
   Shorts = {0, 1}
   NSeg = 5
-  Fixed = FALSE
+  Arith = "code"
 INVARIANT InvTune
 INVARIANT InvKeep
 INVARIANT InvGrid
